@@ -43,7 +43,7 @@ def reg(pid, units, explanation, assumptions=(), level_text='', level_note='', t
                       design_ref=design_ref or 'DESIGN.md section 3 ' + pid)
 
 
-NOT_BUILT = 'unit not built yet in this session (see DESIGN.md work plan)'
+NOT_BUILT = 'planned unit not built (DESIGN.md section 8): no contract on this code is discharged yet, so the property is not claimed'
 NOT_APPLICABLE = {
     'C02': NOT_BUILT, 'C08': NOT_BUILT, 
     'C13': NOT_BUILT, 'C15': NOT_BUILT,
